@@ -16,7 +16,11 @@ def user_fns():
 
     def isin(c, args):
         return any(a is not None and bytes(a) == bytes(c) for a in args)
+    def first_is(c, args):
+        # order-sensitive: the FIRST argument (as written in the schema) equals the component
+        return bool(args) and args[0] is not None and bytes(args[0]) == bytes(c)
     return {
+        '$first_is': first_is,
         '$eq': lambda c, args: all(x == c for x in args),
         '$eq_type': lambda c, args: all(Component.get_type(x) == Component.get_type(c) for x in args),
         '$first_a': first_a,
@@ -207,7 +211,44 @@ def templated_schema(draw):
     'twice'  - a rule with several definitions of different shape (literal / constrained temporary or named pattern) that a
                signer rule refers to two or three times in one name."""
     lits = ['a', 'b', 'c']
-    fam = draw(st.sampled_from(['shift', 'twice', 'alias']))
+    fam = draw(st.sampled_from(['shift', 'twice', 'alias', 'edge']))
+    if fam == 'edge':
+        # 'edge' - (i) a zero-length literal in rule names; (ii) literals of component types >= 253 compared with $eq_type;
+        #          (iii) an order-sensitive user function called with (literal, pattern); (iv) two rules on one prefix constraining
+        #          the same pattern with the same options, once as alternatives (OR) and once as two terms (AND)
+        which = draw(st.integers(0, 3))
+        sign = draw(st.booleans())
+        if which == 0:
+            pat = draw(st.sampled_from(['x', '_']))
+            rules = [{'id': '#r0', 'name': [{'lit': 'K'}, {'lit': ''}, {'pat': pat}], 'cons': [], 'sign': ['#r2'] if sign else []},
+                     {'id': '#r1', 'name': [{'lit': ''}, {'lit': 'a'}], 'cons': [], 'sign': []},
+                     {'id': '#r2', 'name': [{'lit': 'a'}, {'lit': ''}], 'cons': [], 'sign': []}]
+        elif which == 1:
+            t1, t2 = draw(st.sampled_from([(65000, 65001), (253, 254), (300, 65000), (32, 253)]))
+            rules = [{'id': '#r0', 'name': [{'pat': 'x'}, {'pat': 'y'}],
+                      'cons': [[{'pat': 'x', 'opts': [{'lit': f'{t1}=p'}, {'lit': f'{t2}=q'}]},
+                                {'pat': 'y', 'opts': [{'fn': '$eq_type', 'args': [{'pat': 'x'}]}]}]], 'sign': ['#r2'] if sign else []},
+                     {'id': '#r2', 'name': [{'lit': f'{t2}=q'}, {'pat': 'x'}],
+                      'cons': [[{'pat': 'x', 'opts': [{'fn': '$eq_type', 'args': [{'lit': f'{t1}=p'}]}]}]], 'sign': []}]
+        elif which == 2:
+            lit = draw(st.sampled_from(lits))
+            args = [{'lit': lit}, {'pat': 'x'}] if draw(st.booleans()) else [{'pat': 'x'}, {'lit': lit}]
+            rules = [{'id': '#r0', 'name': [{'lit': 'K'}, {'pat': 'x'}, {'pat': 'y'}],
+                      'cons': [[{'pat': 'y', 'opts': [{'fn': '$first_is', 'args': args}]}]], 'sign': ['#r2'] if sign else []},
+                     {'id': '#r2', 'name': [{'lit': 'a'}, {'pat': 'x'}, {'pat': 'z'}],
+                      'cons': [[{'pat': 'z', 'opts': [{'fn': '$first_is', 'args': args[::-1]}]}]], 'sign': []}]
+        else:
+            o1, o2 = draw(st.lists(st.sampled_from(lits), min_size=2, max_size=2, unique=True))
+            either = {'id': '#r0', 'name': [{'lit': 'K'}, {'pat': 'x'}], 'cons': [[{'pat': 'x', 'opts': [{'lit': o1}, {'lit': o2}]}]],
+                      'sign': ['#r2']}
+            both = {'id': '#r1', 'name': [{'lit': 'K'}, {'pat': 'x'}],
+                    'cons': [[{'pat': 'x', 'opts': [{'lit': o1}]}, {'pat': 'x', 'opts': [{'lit': o2}]}]], 'sign': ['#r3']}
+            pair = [either, both] if draw(st.booleans()) else [both, either]
+            if pair[0] is both:
+                either['id'], both['id'] = '#r1', '#r0'
+            rules = pair + [{'id': '#r2', 'name': [{'lit': 'a'}, {'pat': '_'}], 'cons': [], 'sign': []},
+                            {'id': '#r3', 'name': [{'lit': 'b'}, {'pat': '_'}], 'cons': [], 'sign': []}]
+        return {'rules': rules}
     if fam == 'alias':
         # 'alias' - a rule with several chains (constraint alternatives or a reference to a multi-definition rule) and a signer;
         #           another rule whose name pattern + constraints equal ONE of those chains, with another signer
